@@ -1,5 +1,6 @@
 """C08: address ranges of weights and scales handed to the register generator (high_level_command_to_npu_op.create_weights)."""
 from ethosu.vela import high_level_command_to_npu_op as hl
+from ethosu.vela import register_command_stream_util as ru
 from ethosu.vela.api import NpuAddressRange
 from ethosu.vela.architecture_features import MemPort
 from ethosu.vela.high_level_command_stream import Box
@@ -88,4 +89,75 @@ contract(
     returns=TTuple(TList(RANGE_T), TList(RANGE_T)),
     assumptions=["Tensor.address (a property backed by the process-wide TensorAddressMap) is modelled as a field",
                  "standalone scale tensors (scale_tensor is not None) are not covered by a variant in this revision"],
+)
+
+
+# ===== weight DMA (create_dma_op, weights branch): what is transferred is exactly what create_weights expects in the buffer ===========
+from ethosu.vela.api import NpuDmaOperation  # noqa: E402
+from ethosu.vela.tensor import TensorPurpose  # noqa: E402
+
+
+
+def _dma_record(eng, args, kwargs):
+    """NpuDmaOperation(src, dest): a record of its two address ranges (the base-class bookkeeping is not modelled)"""
+    return VStruct(NpuDmaOperation, {"src": args[0], "dest": args[1]})
+
+
+class _OutT:
+    pass
+
+
+class _Dma:
+    pass
+
+
+OUT_T = TStruct(_OutT, purpose=TEnum(TensorPurpose), mem_type=TEnum(MemType, members=list(MemType.all())), address=TInt(lo=0, hi=2**40))
+DMA_CMD = TStruct(_Dma, in_tensor=NWT, out_tensor=OUT_T, box=WBOX)
+
+
+def dwr(cmd, core):
+    return cmd.in_tensor.encoded_ranges.get(WeightKey(core, cmd.box.start_coord[3]))
+
+
+contract(
+    "ethosu.vela.high_level_command_to_npu_op:create_dma_op", props=["C08"],
+    variants={"weights,%dcore" % n: dict(cmd=DMA_CMD, arch=ARCHF) for n in (1, 2)},
+    requires=["arch.cache_mem_area in (MemPort.Axi0, MemPort.Axi1)", "arch.arena_mem_area in (MemPort.Axi0, MemPort.Axi1)",
+              "cmd.in_tensor.purpose == TensorPurpose.Weights",
+              "cmd.in_tensor.mem_type in (MemType.Permanent_NPU, MemType.Permanent_CPU, MemType.Scratch, MemType.Scratch_fast)",
+              "cmd.out_tensor.mem_type in (MemType.Permanent_NPU, MemType.Permanent_CPU, MemType.Scratch, MemType.Scratch_fast)",
+              RANGES_NONNEG % (("cmd.in_tensor",) * 5),
+              "dwr(cmd, 0) is not None"],        # core 0 always has a range for a slice that is transferred (it takes the first channel)
+    variant_requires={"weights,1core": ["arch.ncores == 1"], "weights,2core": ["arch.ncores == 2"]},
+    loops={0: dict(unroll=2)},
+    externals={"ethosu.vela.api:NpuDmaOperation": _dma_record},
+    ensures=[
+        # source: the slice's first (core 0) range in the constants tensor; destination: the start of the buffer tensor
+        "result.src.address == cmd.in_tensor.address + dwr(cmd, 0).offset and result.dest.address == cmd.out_tensor.address",
+        "result.src.region == hl.get_region(cmd.in_tensor.mem_type, arch)",
+        "result.dest.region == (ru.BASE_PTR_INDEX_MEM2MEM if cmd.out_tensor.purpose == TensorPurpose.LUT else hl.get_region(cmd.out_tensor.mem_type, arch))",
+        # length: every core's range, each rounded up to 16 bytes - the packing create_weights assumes for the buffered tensor
+        "result.src.length == result.dest.length",
+    ],
+    variant_ensures={
+        "weights,1core": ["result.src.length == round16(total(dwr(cmd, 0)))"],
+        "weights,2core": ["result.src.length == round16(total(dwr(cmd, 0))) + (round16(total(dwr(cmd, 1))) if dwr(cmd, 1) is not None else 0)"],
+    },
+    assumptions=["Tensor.address modelled as a field; the non-weight branch (address_for_coordinate: numpy) is not covered"],
+)
+
+
+def lemma_dma_length(s0, w0, s1, w1):
+    """Lemma (about the specs only): the DMA length of a two-core slice, computed by create_dma_op from the ranges' total bytes."""
+    return round16(s0 + w0) + round16(s1 + w1)
+
+
+contract(
+    "contracts.c_create_weights:lemma_dma_length", props=["C08"], lemma=True,
+    types=dict(s0=TInt(lo=0, hi=2**32), w0=TInt(lo=0, hi=2**32), s1=TInt(lo=0, hi=2**32), w1=TInt(lo=0, hi=2**32)),
+    # weight sections are multiples of 16 bytes (proved for every range recorded by encode_weight_and_scale_tensor)
+    requires=["w0 % 16 == 0 and w1 % 16 == 0"],
+    # ... so the transferred length equals the bytes the encoder appended for the slice (scales padded to 16, then weights, per core):
+    # exactly the span that double_buffer_sizes[idx % 2] bounds - the DMA'd slice fits the buffer
+    ensures=["result == (round16(s0) + w0) + (round16(s1) + w1)"],
 )
